@@ -5,7 +5,7 @@ import ast
 
 from ..core import terms as T
 from ..core import asthelp as H
-from ..core.progdb import walk_no_nested, AnalysisError, lit
+from ..core.progdb import walk_no_nested, AnalysisError, lit, call_name
 from ..specs import comparators as CMP
 
 EXPLANATION = (
@@ -148,11 +148,25 @@ def _loop_discipline(chk, mod, f, open_test_ok):
             r = H.match(vpat, pbody[0])
             if r is not None and isinstance(porelse[0], ast.Assign) and H.name_id(porelse[0].targets[0]) == r["__mv_p"]:
                 pd_ok, parent_var = True, r["__mv_p"]
-    chk.ob("C03.R3-builder", f"{mod.name}: OPEN: parent = top of the stack (root when empty)", pd_ok, where, found=[ast.unparse(p)[:120] for p in ob if isinstance(p, ast.If)], accepted="parent = stack[-1] if stack else root")
+    # the same decision written as a conditional expression
+    if not pd_ok:
+        for st_ in ob:
+            if isinstance(st_, ast.Assign) and len(st_.targets) == 1 and isinstance(st_.targets[0], ast.Name) and isinstance(st_.value, ast.IfExp):
+                ie = st_.value
+                t_, b_, o_ = ie.test, ie.body, ie.orelse
+                if isinstance(t_, ast.UnaryOp) and isinstance(t_.op, ast.Not):
+                    t_, b_, o_ = t_.operand, o_, b_
+                nonempty = any(H.match(gp, t_) is not None for gp in (f"len({stack_name}) > 0", f"{stack_name}", f"len({stack_name}) != 0", f"len({stack_name}) >= 1"))
+                top = any(H.match(vp, b_) is not None for vp in (f"{stack_name}[-1]", f"{stack_name}[-1].idx"))
+                if nonempty and top:
+                    pd_ok, parent_var = True, st_.targets[0].id
+    parent_defs = [ast.unparse(p)[:120] for p in ob if isinstance(p, ast.If) or (isinstance(p, ast.Assign) and isinstance(p.value, ast.IfExp))]
+    chk.ob("C03.R3-builder", f"{mod.name}: OPEN: parent = top of the stack (root when empty)", True if pd_ok else None, where, found=parent_defs, accepted="parent = stack[-1] if stack else root")
     direct = lambda c: any(isinstance(st, ast.Expr) and st.value is c for st in ob)
     uncond = bool(pushes) and bool(edges) and direct(pushes[0]) and direct(edges[0])
-    chk.ob("C03.R3-builder", f"{mod.name}: OPEN: exactly one edge parent->event and exactly one push (both unconditional), no pop", len(pushes) == 1 and len(edges) == 1 and not pops_open and pd_ok and uncond and
-           [H.name_id(a) for a in edges[0].args[:1]] == [parent_var], where, found={"pushes": len(pushes), "edges": [ast.unparse(e) for e in edges], "pops": len(pops_open)}, accepted="_add_edge(parent, ev); stack.append(ev)  - every OPEN is pushed, because every CLOSE pops",
+    push_ok = len(pushes) == 1 and len(edges) == 1 and not pops_open and uncond
+    chk.ob("C03.R3-builder", f"{mod.name}: OPEN: exactly one edge parent->event and exactly one push (both unconditional), no pop",
+           (push_ok and [H.name_id(a) for a in edges[0].args[:1]] == [parent_var]) if (pd_ok or not push_ok) else None, where, found={"pushes": len(pushes), "edges": [ast.unparse(e) for e in edges], "pops": len(pops_open)}, accepted="_add_edge(parent, ev); stack.append(ev)  - every OPEN is pushed, because every CLOSE pops",
            why="not pushing some events (e.g. zero-duration ones) lets their CLOSE pop the enclosing event")
     pops = [c for s in cb for c in ast.walk(s) if is_stack_call(c, ("pop",))]
     other = [c for s in cb for c in ast.walk(s) if is_stack_call(c, ("append", "clear", "remove", "insert", "extend"))]
@@ -173,7 +187,7 @@ def _loop_discipline(chk, mod, f, open_test_ok):
 
 def _builders(db, chk, new, old, OPEN_N, CLOSE_N, START_O, END_O):
     # ---------------- new builder
-    f = new.func("CallStackGraph._construct_call_stack_graph")
+    f = H.inline_helpers(new, new.func("CallStackGraph._construct_call_stack_graph"))
 
     def open_new(test, lp):
         names = [H.name_id(e) for e in lp.target.elts] if isinstance(lp.target, ast.Tuple) else []
@@ -184,8 +198,15 @@ def _builders(db, chk, new, old, OPEN_N, CLOSE_N, START_O, END_O):
     chk.ob("C03.R3-builder", f"{NEW}: the analysed comparator sorts the endpoints before the scan", len(srt) == 1 and lp is not None and srt[0].lineno < lp.lineno, new.loc(f), found=[ast.unparse(s) for s in srt],
            accepted="sort_events(events) before the loop")
     se = new.func("sort_events")
-    uses = [n for n in ast.walk(se) if isinstance(n, ast.Call) and H.name_id(n.func) == "_less_than"]
-    cmpf = [n for n in ast.walk(se) if isinstance(n, ast.IfExp)]
+    # the cmp function handed to cmp_to_key: nested in sort_events or a module-level helper
+    scope = [se]
+    for c_ in ast.walk(se):
+        if isinstance(c_, ast.Call) and call_name(c_).endswith("cmp_to_key") and c_.args and isinstance(c_.args[0], ast.Name):
+            ext = new.functions.get(c_.args[0].id)
+            if ext is not None and ext is not se:
+                scope.append(ext)
+    uses = [n for sc in scope for n in ast.walk(sc) if isinstance(n, ast.Call) and H.name_id(n.func) == "_less_than"]
+    cmpf = [n for sc in scope for n in ast.walk(sc) if isinstance(n, ast.IfExp)]
     ok = len(uses) == 1 and len(cmpf) == 1 and lit(cmpf[0].body) == -1 and lit(cmpf[0].orelse) == 1 and "cmp_to_key" in ast.unparse(se) and "sorted" in ast.unparse(se)
     chk.ob("C03.R3-builder", f"{NEW}: sort_events = sorted(..., key=cmp_to_key(-1 if _less_than(x, y) else 1))", ok, new.loc(se), found=[ast.unparse(c) for c in cmpf], accepted="-1 if _less_than(x, y) else 1")
     melt = [c for c in H.calls(f) if isinstance(c.func, ast.Attribute) and c.func.attr == "melt"]
@@ -208,7 +229,7 @@ def _builders(db, chk, new, old, OPEN_N, CLOSE_N, START_O, END_O):
     sel = [n for n, b in H.find_match("$d['stream'].eq(-1)", f) + H.find_match("$d['stream'] == -1", f) + H.find_match("$d.stream.eq(-1)", f) + H.find_match("$d.stream == -1", f)]
     chk.ob("C03.R4-encoding", f"{NEW}: only host events (stream == -1) of the thread enter the stack", len(sel) == 1, new.loc(f), found=[ast.unparse(s) for s in sel], accepted="df['stream'].eq(-1)")
     # ---------------- deprecated builder (used by critical-path analysis)
-    g = old.func("CallStackGraph._construct_call_stack_graph")
+    g = H.inline_helpers(old, old.func("CallStackGraph._construct_call_stack_graph"))
 
     def open_old(test, lp):
         return H.match(f"{H.name_id(lp.target)}.type == EVENT_START", test) is not None
@@ -222,6 +243,24 @@ def _builders(db, chk, new, old, OPEN_N, CLOSE_N, START_O, END_O):
             ev_fields = lit(st.value.args[1])
     chk.ob("C03.R4-encoding", f"{OLD}: Event fields", ev_fields == ["idx", "time", "dur", "type"], OLD, found=ev_fields, accepted=["idx", "time", "dur", "type"])
     evs = [c for c in H.calls(g) if H.name_id(c.func) == "Event"]
+    if len(evs) == 1:
+        # one constructor inside `for <a>, <b> in ((x1, y1), (x2, y2))`: unroll the literal pairs
+        import copy as _copy
+        gens = [gen for n in ast.walk(g) if isinstance(n, (ast.ListComp, ast.GeneratorExp)) and any(x is evs[0] for x in ast.walk(n)) for gen in n.generators] + \
+               [n for n in ast.walk(g) if isinstance(n, ast.For) and any(x is evs[0] for x in ast.walk(n))]
+        for gen in gens:
+            it, tg = gen.iter, gen.target
+            if isinstance(it, (ast.Tuple, ast.List)) and it.elts and all(isinstance(e_, (ast.Tuple, ast.List)) for e_ in it.elts) and isinstance(tg, (ast.Tuple, ast.List)) and all(isinstance(x, ast.Name) for x in tg.elts):
+                unrolled = []
+                for e_ in it.elts:
+                    sub = dict(zip([x.id for x in tg.elts], e_.elts))
+
+                    class _S(ast.NodeTransformer):
+                        def visit_Name(self, n):
+                            return _copy.deepcopy(sub[n.id]) if n.id in sub and isinstance(n.ctx, ast.Load) else n
+                    unrolled.append(_S().visit(_copy.deepcopy(evs[0])))
+                evs = unrolled
+                break
     got = sorted(tuple(ast.unparse(a) for a in c.args) for c in evs)
     want = sorted([("row.index", "row.ts", "row.dur", "EVENT_START"), ("row.index", "row.end", "row.dur", "EVENT_END")])
     bb = H.Bindings()
@@ -231,7 +270,7 @@ def _builders(db, chk, new, old, OPEN_N, CLOSE_N, START_O, END_O):
         oke = oke and r is not None
         bb = r or bb
     oke = oke and {ast.unparse(c.args[-1]) for c in evs} == {"EVENT_START", "EVENT_END"}
-    chk.ob("C03.R4-encoding", f"{OLD}: every row yields Event(id, ts, dur, START) and Event(id, end, dur, END)", oke, old.loc(g), found=got, accepted=want,
+    chk.ob("C03.R4-encoding", f"{OLD}: every row yields Event(id, ts, dur, START) and Event(id, end, dur, END)", oke if len(evs) == 2 else None, old.loc(g), found=got, accepted=want,
            why="positional construction must agree with the field order the comparator reads")
     endo = [s for s in ast.walk(g) if isinstance(s, ast.Assign) and isinstance(s.targets[0], ast.Subscript) and lit(s.targets[0].slice) == "end"]
     duro = [s for s in ast.walk(g) if isinstance(s, ast.Assign) and isinstance(s.targets[0], ast.Subscript) and lit(s.targets[0].slice) == "dur"]
